@@ -1,6 +1,7 @@
 package main
 
 import (
+	"runtime/debug"
 	"fmt"
 	"go/ast"
 	"go/constant"
@@ -499,8 +500,11 @@ func (e *Engine) runPath(harness *ssa.Function, prefix []int, sol *Solver) (p *P
 					p.viols = append(p.viols, Violation{Label: "uncaught-panic", Kind: "panic", Inputs: p.inputsWithModelNow(), Trace: p.traceInts(), Harness: p.harness, Detail: p.unsupMsg, Log: append([]string{}, p.log...)})
 				}
 			default:
-				fmt.Fprintf(os.Stderr, "engine panic on path %v: %v\n", prefix, r)
-				panic(r)
+				// an engine-internal failure must never take the whole run down: the path is
+				// reported as unsupported (its obligations stay undischarged)
+				fmt.Fprintf(os.Stderr, "engine panic on path %v: %v\n%s\n", prefix, r, debug.Stack())
+				p.outcome = "unsupported"
+				p.unsupMsg = fmt.Sprintf("engine panic: %v", r)
 			}
 		}
 		if p.outcome == "done" && e.wantWitness > 0 {
